@@ -26,10 +26,10 @@ CONSTANTS Kind,        \* "t" | "a" | "m" | "x"
           UseStop,     \* ustop may replace one tick
           Flat         \* Kind "m": one key (k1), primitive values only (deep histories of a single map entry);
                        \* Kind "x": one element (created by the first edit), afterwards only its attribute "id" is set / removed
-          ,Pre         \* Kind "x" only: the fragment already holds content of ANOTHER origin when the manager starts (the pipeline
+          ,Pre         \* Kind "x" (and every kind with Shape "wiggle": C0 below): the tracked root already holds content of ANOTHER origin when the manager starts (the pipeline
                        \* prepends the edits creating it): <e id=..>[text node], text node with two characters
-          ,Shape       \* "any" | "wiggle".  wiggle: the tracked root starts with prepared content (C0 below; the pipeline prepends
-                       \* the edits creating it), the program is  edit (tick edit)^(MaxE-1) ; U^p (R U)^j U U R R  with
+          ,Shape       \* "any" | "wiggle".  wiggle: the tracked root starts empty or (Pre) with prepared content (C0 below; the
+                       \* pipeline prepends the edits creating it), the program is  edit (tick edit)^(MaxE-1) ; U^p (R U)^j U U R R  with
                        \* p \in 1..MaxP, j \in 1..MaxW: every edit is its own capture step, then an outer step is undone / redone /
                        \* undone ... (whatever it re-creates is re-created j+1 times) BEFORE older steps are undone; foreign
                        \* edits (MaxF) may be interleaved after the first call.  MaxUR is not used.
@@ -57,10 +57,10 @@ RemAt(s, i) == SubSeq(s, 1, i - 1) \o SubSeq(s, i + 1, Len(s))      \* 1-based
 (* uniform value records (TLC cannot compare values of different shapes) *)
 Val(k, id, e, mm) == [k |-> k, id |-> id, e |-> e, mm |-> mm]
 NoVal == Val("-", 0, <<>>, <<0, 0>>)
-C0 == IF Shape = "wiggle" /\ Kind = "t" THEN <<901, 902, 903>>
-      ELSE IF Shape = "wiggle" /\ Kind = "a"
+C0 == IF Shape = "wiggle" /\ Pre /\ Kind = "t" THEN <<901, 902, 903>>
+      ELSE IF Shape = "wiggle" /\ Pre /\ Kind = "a"
            THEN << Val("u", 901, <<>>, <<0, 0>>), Val("M", 902, <<>>, <<903, 0>>), Val("u", 904, <<>>, <<0, 0>>) >>
-      ELSE IF Shape = "wiggle" /\ Kind = "m" THEN << Val("A", 901, <<902, 903>>, <<0, 0>>), Val("u", 904, <<>>, <<0, 0>>) >>
+      ELSE IF Shape = "wiggle" /\ Pre /\ Kind = "m" THEN << Val("A", 901, <<902, 903>>, <<0, 0>>), Val("u", 904, <<>>, <<0, 0>>) >>
       ELSE IF Kind = "m" THEN <<NoVal, NoVal>>
       ELSE IF Kind = "x" /\ Pre
            THEN << Val("E", 901, << <<903, 1>> >>, <<902, 0>>), Val("T", 904, << <<905, 0>>, <<906, 0>> >>, <<0, 0>>) >>
@@ -161,7 +161,7 @@ Apply(c, o, t) ==
   IF Kind = "x" THEN ApplyX(c, o, t)
   ELSE IF Kind = "t" THEN
      (IF o.op = "ins" THEN InsAt(c, Min(o.i, Len(c)), [j \in 1..o.n |-> t + j - 1])
-      ELSE IF Len(c) = 0 THEN c ELSE RemAt(c, Min(o.i, Len(c) - 1) + 1))
+      ELSE IF Len(c) = 0 THEN c ELSE ClampDel(c, o.i, o.n))
   ELSE IF Kind = "a" THEN
      (IF Len(o.p) = 1 THEN
          (IF o.op = "ins" THEN InsAt(c, Min(o.i, Len(c)),
@@ -186,6 +186,8 @@ Menu(c) ==
   ELSE IF Kind = "t" THEN
      {Op("ins", <<"t">>, i, 1, "", "u") : i \in 0..Len(c)} \cup {Op("ins", <<"t">>, 0, 2, "", "u")}
      \cup {Op("del", <<"t">>, i, 1, "", "u") : i \in 0..(Len(c) - 1)}
+     \* wiggle: also ranges of two (a squashed run deleted as a whole, then re-created as ONE block)
+     \cup (IF Shape = "wiggle" THEN {Op("del", <<"t">>, i, 2, "", "u") : i \in 0..(Len(c) - 2)} ELSE {})
   ELSE IF Kind = "a" THEN
      {Op("ins", <<"a">>, i, 1, "", "u") : i \in 0..Len(c)}
      \cup (IF FirstM(c) = 0 THEN {Op("ins", <<"a">>, i, 1, "", "M") : i \in {0, Len(c)}} ELSE {})
